@@ -68,38 +68,24 @@ impl InkList {
 
     fn get_ordered_items(&self) -> Vec<(&InkListItem, &i32)> {
         let mut ordered: Vec<_> = self.items.iter().collect();
+        // Items with equal values are ordered by origin and then by item name, so
+        // that the order never depends on the iteration order of the hash map.
         ordered.sort_by(|a, b| {
-            if a.1 == b.1 {
-                a.0.get_origin_name().cmp(&b.0.get_origin_name())
-            } else {
-                a.1.cmp(b.1)
-            }
+            a.1.cmp(b.1)
+                .then_with(|| a.0.get_origin_name().cmp(&b.0.get_origin_name()))
+                .then_with(|| a.0.get_item_name().cmp(b.0.get_item_name()))
         });
         ordered
     }
 
+    // Among items with the same (extreme) value the last / first one in the
+    // order used for printing is chosen, independently of hash-map order.
     pub fn get_max_item(&self) -> Option<(&InkListItem, i32)> {
-        let mut max: Option<(&InkListItem, i32)> = None;
-
-        for (k, v) in &self.items {
-            if max.is_none() || *v > max.as_ref().unwrap().1 {
-                max = Some((k, *v));
-            }
-        }
-
-        max
+        self.get_ordered_items().last().map(|(k, v)| (*k, **v))
     }
 
     pub fn get_min_item(&self) -> Option<(&InkListItem, i32)> {
-        let mut min: Option<(&InkListItem, i32)> = None;
-
-        for (k, v) in &self.items {
-            if min.is_none() || *v < min.as_ref().unwrap().1 {
-                min = Some((k, *v));
-            }
-        }
-
-        min
+        self.get_ordered_items().first().map(|(k, v)| (*k, **v))
     }
 
     pub fn set_initial_origin_names(&self, initial_origin_names: Vec<String>) {
